@@ -3,6 +3,7 @@ PY front-end: ast trees of src/nunavut (vendored jinja2/markupsafe excluded unle
 class hierarchy, call-site resolution, per-statement guard contexts (enclosing if/else + early exits).
 """
 import ast
+import copy
 import pathlib
 import typing
 
@@ -888,6 +889,117 @@ def unroll_literal_loops(func_node: ast.AST, max_items: int = 8) -> ast.AST:
             return out
     res = _U().visit(fn)
     return ast.fix_missing_locations(res)
+
+
+def gather_from_helpers(func_node: ast.FunctionDef, methods: typing.Dict[str, ast.FunctionDef], acc: str = "gathered__") -> ast.FunctionDef:
+    """A collection builder split into private parts,
+
+        def get(self): return sorted(self._a() | self._b())
+        def _a(self):
+            if self._x is None: return set()
+            return {f(t) for d in self._x.dirs for t in d.glob(p)}
+
+    is written back as one accumulating body (what the parts abbreviate):
+
+        gathered__ = set()
+        if self._x is None: pass
+        else:
+            for d in self._x.dirs:
+                for t in d.glob(p): gathered__.add(f(t))
+        ...
+        return sorted(gathered__)
+
+    Applies only when the function is a single `return <wrappers>(self._h1() <|,+> self._h2() ...)` over argument-less private helper
+    methods whose bodies are if/return trees; anything else is returned unchanged (a deep copy)."""
+    fn = copy.deepcopy(func_node)
+    body = [st for st in fn.body if not (isinstance(st, ast.Expr) and isinstance(st.value, ast.Constant))]
+    if len(body) != 1 or not isinstance(body[0], ast.Return) or body[0].value is None:
+        return fn
+    wrappers = []
+    e = body[0].value
+    while isinstance(e, ast.Call) and isinstance(e.func, ast.Name) and e.func.id in ("sorted", "list", "set", "tuple", "frozenset") and len(e.args) == 1 and not e.keywords:
+        wrappers.append(e.func.id)
+        e = e.args[0]
+
+    def parts(x):
+        if isinstance(x, ast.BinOp) and isinstance(x.op, (ast.BitOr, ast.Add)):
+            l_, r_ = parts(x.left), parts(x.right)
+            return None if l_ is None or r_ is None else l_ + r_
+        if isinstance(x, ast.Call) and isinstance(x.func, ast.Attribute) and isinstance(x.func.value, ast.Name) and x.func.value.id == "self" \
+                and x.func.attr.startswith("_") and not x.args and not x.keywords and x.func.attr in methods:
+            return [x.func.attr]
+        return None
+
+    hs = parts(e)
+    if not hs:
+        return fn
+
+    def empty(x):
+        return (isinstance(x, ast.Call) and isinstance(x.func, ast.Name) and x.func.id in ("set", "list", "frozenset", "tuple") and not x.args) or \
+            (isinstance(x, (ast.List, ast.Tuple, ast.Set)) and not x.elts)
+
+    def pour(x) -> typing.Optional[typing.List[ast.stmt]]:
+        if empty(x):
+            return [ast.Pass()]
+        if isinstance(x, (ast.SetComp, ast.ListComp, ast.GeneratorExp)):
+            inner: typing.List[ast.stmt] = [ast.Expr(value=ast.Call(func=ast.Attribute(value=ast.Name(id=acc, ctx=ast.Load()), attr="add", ctx=ast.Load()),
+                                                                    args=[x.elt], keywords=[]))]
+            for gen in reversed(x.generators):
+                for c in reversed(gen.ifs):
+                    inner = [ast.If(test=c, body=inner, orelse=[])]
+                inner = [ast.For(target=gen.target, iter=gen.iter, body=inner, orelse=[])]
+            return inner
+        return [ast.AugAssign(target=ast.Name(id=acc, ctx=ast.Store()), op=ast.BitOr(), value=x)]
+
+    def seq(stmts) -> typing.Optional[typing.List[ast.stmt]]:
+        out: typing.List[ast.stmt] = []
+        for i, st in enumerate(stmts):
+            if isinstance(st, ast.Expr) and isinstance(st.value, ast.Constant):
+                continue
+            if isinstance(st, ast.Return):
+                if st.value is None:
+                    return None
+                p_ = pour(st.value)
+                return None if p_ is None else out + p_
+            if isinstance(st, ast.If):
+                ends = lambda b: bool(b) and isinstance(b[-1], (ast.Return, ast.Raise))   # noqa: E731
+                if ends(st.body) and not st.orelse:
+                    a = seq(st.body) if isinstance(st.body[-1], ast.Return) else list(st.body)
+                    b = seq(stmts[i + 1:])
+                    if a is None or b is None:
+                        return None
+                    return out + [ast.If(test=st.test, body=a, orelse=b)]
+                if any(isinstance(n, ast.Return) for n in ast.walk(st)):
+                    a, b = seq(st.body), seq(st.orelse)
+                    if a is None or b is None:
+                        return None
+                    rest = seq(stmts[i + 1:]) if not (ends(st.body) and ends(st.orelse)) else []
+                    if rest is None:
+                        return None
+                    return out + [ast.If(test=st.test, body=a, orelse=b)] + rest
+                out.append(st)
+                continue
+            if any(isinstance(n, ast.Return) for n in ast.walk(st)):
+                return None
+            out.append(st)
+        return None      # falls off the end without returning a collection
+
+    new_body: typing.List[ast.stmt] = [ast.Assign(targets=[ast.Name(id=acc, ctx=ast.Store())], value=ast.Call(func=ast.Name(id="set", ctx=ast.Load()), args=[], keywords=[]))]
+    for h in hs:
+        hb = seq(copy.deepcopy(methods[h]).body)
+        if hb is None:
+            return copy.deepcopy(func_node)
+        new_body += hb
+    ret: ast.expr = ast.Name(id=acc, ctx=ast.Load())
+    for w in reversed(wrappers):
+        ret = ast.Call(func=ast.Name(id=w, ctx=ast.Load()), args=[ret], keywords=[])
+    new_body.append(ast.Return(value=ret))
+    fn.body = new_body
+    ast.fix_missing_locations(fn)
+    for n in ast.walk(fn):
+        if not hasattr(n, "lineno"):
+            pass
+    return ast.copy_location(fn, func_node)
 
 
 def expand_accumulated_lists(func_node: ast.AST) -> ast.AST:
